@@ -146,6 +146,45 @@ def src_line(s, off):
     return s.count('\n', 0, off) + 1
 
 
+# survivors of the full sweep that were triaged as equivalent or outside the contracts' domain (DESIGN 9.12); (fn, mutation prefix)
+TRIAGED = [('buffer_binding_type', 'LOAD -> STORE'), ('pretty_print_rustfmt', 'false flipped'), ('struct_members', 'delete stmt `panic!'), ('rust_struct', 'delete stmt `panic!')]
+
+
+def run(prop, limit=60, seed=0, jobs=6):
+    """Sampled sweep over the functions of the units that serve `prop` (thorough tier; informational, never deciding)."""
+    todo = []
+    mid = 0
+    for file, fn, unit, props in functions():
+        if prop not in props:
+            continue
+        src = open(os.path.join(SRC, file), encoding='utf-8').read()
+        span = find_item(src, 'fn', fn)
+        if not span:
+            continue
+        seen = set()
+        for desc, a, b, rep in mutants_of(src, span):
+            if (a, b, rep) in seen:
+                continue
+            seen.add((a, b, rep))
+            mid += 1
+            todo.append((mid, file, fn, unit, prop, desc, a, b, rep))
+    total = len(todo)
+    random.Random(seed).shuffle(todo)
+    todo = todo[:limit]
+    res = []
+    with cf.ThreadPoolExecutor(max_workers=jobs) as ex:
+        res = list(ex.map(run_one, todo))
+    tot = {}
+    for r in res:
+        tot[r['status']] = tot.get(r['status'], 0) + 1
+    surv = [r for r in res if r['status'] == 'SURVIVED']
+    new = [r for r in surv if not any(r['fn'] == f and r['mutation'].startswith(m) for f, m in TRIAGED)]
+    return {'mutants_of_these_functions': total, 'sampled': len(todo), 'seed': seed, 'rejected_by_a_named_obligation': tot.get('rejected', 0),
+            'do_not_compile_or_unsupported': tot.get('undecided', 0), 'survived': len(surv),
+            'survivors_not_triaged_before': ['%s::%s:%d %s' % (r['file'], r['fn'], r['line'], r['mutation']) for r in new],
+            'note': 'token-level mutants of the functions under contract, deductive part only; informational (a survivor is an equivalent mutant or a hole in a contract), never deciding'}
+
+
 def main():
     args = sys.argv[1:]
     jobs = int(args[args.index('--jobs') + 1]) if '--jobs' in args else 8
